@@ -403,6 +403,27 @@ def innermost_is_harness(exc):
                    for fr in frames)
 
 
+def raise_site(exc):
+    """Root-cause key of an exception: ``Class.method`` (or
+    ``module:function``) of the deepest frame that lies inside odl."""
+    root = os.path.join(odl_root(), 'odl') + os.sep
+    tb = exc.__traceback__
+    site = '?'
+    while tb is not None:
+        fr = tb.tb_frame
+        fn = os.path.abspath(fr.f_code.co_filename)
+        if fn.startswith(root):
+            slf = fr.f_locals.get('self')
+            if slf is not None:
+                site = '{}.{}'.format(type(slf).__name__, fr.f_code.co_name)
+            else:
+                site = '{}:{}'.format(
+                    os.path.splitext(os.path.basename(fn))[0],
+                    fr.f_code.co_name)
+        tb = tb.tb_next
+    return site
+
+
 def _walk_ops(op, depth=0, seen=None):
     """The operator and the operators reachable through its public operand
     attributes (expression trees, product-space operator matrices)."""
@@ -447,16 +468,21 @@ def _space_tag(spc):
 
 
 def region(op, desc):
-    """Region part of a violation signature: entry, space kinds, size regime
+    """Region part of a violation signature: entry, range kind, size regime
     and the options that select a code path."""
     opts = desc['op']['opts']
-    parts = [desc['op']['entry'], 'dom=' + _space_tag(op.domain),
-             'ran=' + _space_tag(op.range)]
+    parts = [desc['op']['entry'], 'ran=' + _space_tag(op.range)]
     n = flat.rdim(op.range) if not isinstance(op.range, Field) else 1
     parts.append('small' if n < 100 else 'medium')
-    for k in ('impl', 'halfcomplex', 'naxes', 'variant', 'how', 'name'):
+    for k in ('impl', 'halfcomplex', 'parity', 'matshape'):
         if k in opts:
             parts.append('{}={}'.format(k, opts[k]))
+    if 'naxes' in opts:
+        parts.append('naxes=' + ('1' if opts['naxes'] == 1 else 'multi'))
+    ran = op.range
+    if isinstance(ran, odl.DiscretizedSpace) and ran.ndim >= 2 and \
+            ran.shape[0] == 1 and max(ran.shape[1:]) > 1:
+        parts.append('ranlead1')
     return ','.join(parts)
 
 
@@ -1727,6 +1753,8 @@ def _dft(o):
     plan = o.flag('plan') and impl == 'pyfftw'
     f32 = o.flag('f32')
     o.opts['naxes'] = nd if axes is None else len(axes)
+    o.opts['parity'] = 'odd' if sd['shape'][
+        -1 if axes is None else axes[-1]] % 2 else 'even'
     o.dom = 'mod'
 
     def mk():
@@ -1757,6 +1785,8 @@ def _dft_inv(o):
     sign = '+' if hc else o.pick('sign', ('+', '+', '-'))
     o.opts['naxes'] = nd if axes is None else len(axes)
     o.opts['halfcomplex'] = hc
+    o.opts['parity'] = 'odd' if sd['shape'][
+        -1 if axes is None else axes[-1]] % 2 else 'even'
     o.dom = 'mod'
 
     def mk():
@@ -2114,6 +2144,7 @@ def _f_nuc(o):
     base, n, m = _matrix_space(o)
     oe = o.pick('outer', [1, 2, float('inf')])
     se = o.pick('sing', [1, 2, float('inf')])
+    o.opts['matshape'] = 'wide' if n < m else 'tall'
     return lambda: S.NuclearNorm(ProductSpace(ProductSpace(B(base), m), n),
                                  oe, se)
 
@@ -2123,6 +2154,7 @@ def _f_inuc(o):
     base, n, m = _matrix_space(o)
     oe = o.pick('outer', [1, 2, float('inf')])
     se = o.pick('sing', [1, 2, float('inf')])
+    o.opts['matshape'] = 'wide' if n < m else 'tall'
     return lambda: S.IndicatorNuclearNormUnitBall(
         ProductSpace(ProductSpace(B(base), m), n), oe, se)
 
